@@ -18,6 +18,7 @@ package c11
 
 import (
 	"encoding/json"
+	"flag"
 	"fmt"
 	"strings"
 	"testing"
@@ -31,7 +32,12 @@ import (
 	"verif/harness/vr"
 )
 
-func TestMain(m *testing.M) { vr.Main(m) }
+func TestMain(m *testing.M) {
+	// several sub-checks can fail on one defect; keep the time rapid spends shrinking each of them bounded so that a
+	// failing run still ends within the quick budget
+	_ = flag.Set("rapid.shrinktime", "8s")
+	vr.Main(m)
+}
 
 type Case struct {
 	Doc frag.Doc `json:"doc"`
